@@ -104,10 +104,35 @@ fn dump<'tcx>(tcx: TyCtxt<'tcx>, krate: &str) -> J {
             J::Bool(tcx.sess.opts.debug_assertions),
         ),
         ("adts", dump_adts(tcx)),
+        ("consts", dump_consts(tcx)),
         ("impls", dump_impls(tcx)),
         ("unsafe", dump_unsafe(tcx)),
         ("bodies", J::Arr(bodies)),
     ])
+}
+
+/// free `const` items of integer type with their values (the documented limits live in such constants)
+fn dump_consts<'tcx>(tcx: TyCtxt<'tcx>) -> J {
+    let mut out = Vec::new();
+    for id in tcx.hir_free_items() {
+        let did = id.owner_id.def_id;
+        if !matches!(tcx.def_kind(did), DefKind::Const { .. }) {
+            continue;
+        }
+        let ty = tcx.type_of(did).instantiate_identity().skip_norm_wip();
+        if !matches!(ty.kind(), ty::Uint(_) | ty::Int(_) | ty::Bool | ty::Char) {
+            continue;
+        }
+        let mut v = vec![
+            ("path", J::s(&tcx.def_path_str(did.to_def_id()))),
+            ("ty", J::s(&format!("{}", ty))),
+        ];
+        if let Ok(mir::ConstValue::Scalar(rustc_middle::mir::interpret::Scalar::Int(si))) = tcx.const_eval_poly(did.to_def_id()) {
+            v.push(("val", J::Num(si.to_bits_unchecked() as i128)));
+        }
+        out.push(J::obj(v));
+    }
+    J::Arr(out)
 }
 
 fn dump_adts<'tcx>(tcx: TyCtxt<'tcx>) -> J {
